@@ -17,6 +17,10 @@ FAULTS = {1: 'asyncio.TimeoutError', 2: 'aiohttp.ServerDisconnectedError', 3: 'C
           7: 'WarmingUpError'}
 
 
+AVAIL_SRC = ('self.g_p <= q and q < len(self.g_F) and (self.g_F[q] == 0 or self.g_F[q] == 8) and '
+             'forall(lambda j=Int: implies(self.g_p <= j and j < q, 1 <= self.g_F[j] and self.g_F[j] <= 7))')
+
+
 def register(reg):
     reg.specfun('genuine', [Int, Int], KJ)
     # rr(i, k, n): the URL index after k fail-overs starting from i with n URLs (cyclic successor, iterated)
